@@ -926,6 +926,16 @@ class RecordLayer(object):
                     data = self._decryptSSL2(data, header.padding)
                     if self.handshake_finished:
                         header.type = ContentType.application_data
+                # the version of protected records is fixed by the
+                # negotiation (it is an implicit input of the MAC)
+                elif not self._is_tls13_plus() and \
+                        self.version in ((3, 0), (3, 1), (3, 2), (3, 3)) and \
+                        self._readState and \
+                        (self._readState.encContext or
+                         self._readState.macContext) and \
+                        header.version != self.version:
+                    raise TLSIllegalParameterException(
+                        "Unexpected protocol version in protected record")
                 # in TLS 1.3, the other party may send an unprotected CCS
                 # message at any point in connection
                 elif self._is_tls13_plus() and \
